@@ -211,6 +211,7 @@ impl<'a> GeneratorState<'a> {
                         match left {
                             ExprType::Absolute(_, _, _) => {
                                 self.asm(STX, left, pos, high_byte)?;
+                                self.forget_memory_flags();
                                 /*
                                 if !eight_bits {
                                     if *offset == 0 {
@@ -250,6 +251,7 @@ impl<'a> GeneratorState<'a> {
                                     && v.var_type != VariableType::CharPtr
                                 {
                                     self.asm(STX, left, pos, high_byte)?;
+                                    self.forget_memory_flags();
                                 } else {
                                     if self.acc_in_use {
                                         self.sasm(PHA)?;
@@ -295,6 +297,7 @@ impl<'a> GeneratorState<'a> {
                         match left {
                             ExprType::Absolute(_, _, _) => {
                                 self.asm(STY, left, pos, high_byte)?;
+                                self.forget_memory_flags();
                                 /*
                                 if !eight_bits {
                                     if *offset == 0 {
@@ -332,6 +335,7 @@ impl<'a> GeneratorState<'a> {
                                 let v = self.compiler_state.get_variable(variable);
                                 if v.memory == VariableMemory::Zeropage {
                                     self.asm(STY, left, pos, high_byte)?;
+                                    self.forget_memory_flags();
                                 } else {
                                     if self.acc_in_use {
                                         self.sasm(PHA)?;
